@@ -379,7 +379,7 @@ HOSTILE_LOCS = [
 ]
 # classes known to loop ~2^32 times or to hit assert(): kept out of the streams that run to completion
 # (they are exercised, with a timeout, from corpus/c20)
-HANG_RE = re.compile(r":\d+:-\d+")
+HANG_RE = re.compile(r"[:=]\d+:-\d+")
 
 BAD_OPTIONS = [
     ["--bogus"], ["-Z"], ["-"], ["--"], ["--cof"], ["--cof", "bogus"], ["--cif"], ["--cif", "bogus"], ["--cif", "systemd-dbus-api"],
